@@ -31,7 +31,7 @@ ASSUMPTIONS = [
     "head-residence bound asserted: 6 x (polling interval + J); analytic worst case of the repaired catch-all consumer is 5 intervals + 3J (finish a 2-interval grace for a consumed head, 1 idle poll, 2-interval grace)",
 ]
 BUDGET = {
-    "quick": {"workers": 16, "examples": 1600},
+    "quick": {"workers": 16, "examples": 4800},
     "thorough": {"workers": 16, "examples": 32000},
 }
 BLOCK = 1024
